@@ -11,6 +11,7 @@ import (
 	"fmt"
 	"io"
 	"os"
+	"time"
 )
 
 // VerifGuardTransfer is a transfer whose input is fed by the harness and whose output is kept.
@@ -309,4 +310,65 @@ func verifEscapeCharsAny(escapeAll bool) []interface{} {
 		out = append(out, []interface{}{string(p[0]), string(p[1])})
 	}
 	return out
+}
+
+// ---- the size of the sender's chunk buffer over a sequence of acknowledgements ----
+
+// VerifBufsizeEvolution runs the real pipelineRecvAck for a negotiated limit maxBuf over the
+// given acknowledgements. lens[i] is the acknowledged length (-1: whatever the buffer size is
+// at that moment, -2: half of it), agesMs[i] how long ago the chunk was sent. It returns the
+// lengths actually used, the buffer size before the first and after every acknowledgement,
+// and the text of the panic of newSendDataWriter's make for the final size ("" = none).
+func VerifBufsizeEvolution(maxBuf int64, lens, agesMs []int64) (used, sizes []int64, makePanic string, errText string) {
+	defer verifRecover(&errText)
+	t := newTransfer(io.Discard, nil, false, nil)
+	t.transferConfig.MaxBufSize = maxBuf
+	t.transferConfig.Protocol = 2
+	t.transferConfig.Timeout = 5
+	c, cancel := context.WithCancelCause(context.Background())
+	ctx := &pipelineContext{c, cancel, make(chan struct{}, 1)}
+	defer cancel(nil)
+	ackChan := make(chan trzszAck) // unbuffered: a send succeeds only when the previous acknowledgement is done
+	total := int64(0)
+	t.pipelineRecvAck(ctx, 0, ackChan, false)
+	sizes = append(sizes, t.bufferSize.Load())
+	for i := range lens {
+		l := lens[i]
+		switch l {
+		case -1:
+			l = t.bufferSize.Load()
+		case -2:
+			l = t.bufferSize.Load() / 2
+		}
+		total += l
+		t.addReceivedData([]byte(fmt.Sprintf("#SUCC:%d/%d\n", l, total)), false)
+		select {
+		case ackChan <- trzszAck{time.Now().Add(-time.Duration(agesMs[i]) * time.Millisecond), l}:
+		case <-ctx.Done():
+			return used, sizes, "", verifErr(context.Cause(ctx))
+		}
+		used = append(used, l)
+		// a second, neutral acknowledgement (length -7 never equals a buffer size and is not slow) is
+		// accepted by the loop only after the first one has been dealt with completely
+		select {
+		case ackChan <- trzszAck{time.Now(), -7}:
+			t.addReceivedData([]byte("#SUCC:-7/0\n"), false)
+		case <-ctx.Done():
+			return used, sizes, "", verifErr(context.Cause(ctx))
+		}
+		sizes = append(sizes, t.bufferSize.Load())
+	}
+	close(ackChan)
+	t.addReceivedData([]byte("#SUCC:0\n"), false) // the final acknowledgement for size 0 ends the goroutine
+	func() {
+		defer func() {
+			if r := recover(); r != nil {
+				makePanic = fmt.Sprintf("panic: %v", r)
+			}
+		}()
+		if s := t.bufferSize.Load(); s <= 64<<20 {
+			_ = newSendDataWriter(t, ctx, make(chan trzszData, 1))
+		}
+	}()
+	return used, sizes, makePanic, ""
 }
